@@ -157,7 +157,11 @@ class ErrorHandling:
     def query_is_valid(self, tokens):
         # try to parse list of tokens
 
-        ast = self.parser.parse(iter(tokens))
+        try:
+            ast = self.parser.parse(iter(tokens))
+        except Exception:
+            # a grammar action rejected the made-up token (e.g. int('[number]')): not a usable suggestion
+            return False
         return ast is not None
 
 
